@@ -28,6 +28,13 @@ class FaultyFile(io.RawIOBase):
         b = bytes(b)
         idx = len(self.calls)
         self.calls.append(len(b))
+        if self.mode == "chunked":
+            # a raw device that takes at most k bytes per call (every oversized write is a short write)
+            k = max(1, self.k)
+            if len(b) > k:
+                self.failed = True
+            self.image += b[:k]
+            return min(k, len(b))
         if self.fail_at is not None and idx == self.fail_at:
             k = min(self.k if self.k >= 0 else max(0, len(b) + self.k), len(b))
             self.image += b[:k]
